@@ -135,6 +135,41 @@ CHECKS = {
                      "transient states between steps are only judged while a re-LIST is outstanding; metadata is judged as the exact string map lib.rs documents."),
 }
 
+# further stages added while strengthening against seeded changes (all judged by TLC on recorded observations)
+EXTRA = {
+    "C01": " Further stages: timed runs (ConnTimed schedules; a client idling inside the login phase); the real MojangAdapter against a loopback session server with 16 answer scripts "
+           "(an identity is reported only if the answer carried it: Trace_SessionUrl!C01_IdentityOnlyFromReply).",
+    "C02": " The scripted client also answers an authentication-cookie request the model does not expect (Login intent). Further stage: the address a cookie is bound to behind a balancer, "
+           "through the real Listener with PROXY headers (Trace_Listener!C02_BoundToEffectiveAddress).",
+    "C03": " Further stages: timed runs incl. a transport that stalls in the middle of a Keep Alive while discovery / filtering / selection completes, released before or after the Transfer is "
+           "queued; the built-in localization adapter's fallback chain (Builtins.tla, 10 k cases); configured messages end in characters whose modified-UTF-8 form differs from UTF-8.",
+    "C04": " Further stages: 400 (quick) / 20,000 (thorough) byte-level fuzz inputs around valid prefixes; a watchdog pool that reports a handler spinning after EOF; frames around the "
+           "CONFIGURED maximum through passage::start (Trace_Listener!C04_ConfiguredMaximumGoverns).",
+    "C05": " Further stage: the encrypted stream at connection level -- all Frames.tla schedules (pipelined plaintext/ciphertext switch inside one segment, split writes, write stalls, segmented "
+           "reads) run in pairs against their whole-frame reference and judged by Trace_Frames.",
+    "C06": " Further stage: timed runs incl. a client that idles 17-49 s before Login Start or before the Encryption Response (no Keep Alive or Disconnect belongs into the login phase).",
+    "C07": " Further schedules: write stalls (the Keep Alive half written while discovery completes) under 5 echo policies; echoes that arrive in two pieces around a routing completion.",
+    "C08": " Write-stall family: stall x completing step (discovery / filtering / selection) x release (early, or only after everything is queued) x echoing / silent client, also with routing "
+           "outlasting the next deadline.",
+    "C09": " String domains include 32,800 bytes in 16,400 UTF-16 units (quick) and the longest string, 98,301 bytes (thorough).",
+    "C10": " Client addresses include IPv4-mapped IPv6; secrets of 1 / 32 / 200 bytes incl. leading / trailing whitespace. Further stage: the address the issued cookie records behind a balancer, "
+           "through the real Listener (Trace_Listener!C10_RecordsEffectiveAddress).",
+    "C11": " Further stages: the has-joined request of the real MojangAdapter (one adapter instance per server id, as the application uses it) carries SignedHex of the hashlib digest; a server id "
+           "given through the environment layer reaches the adapter verbatim (Trace_ConfigLayers; skipped with a note if that variable is not effective in the tree).",
+    "C12": " Connection level: every behaviour with an Encryption Response (incl. wrong-length secrets, a 17-byte secret with a leading zero) -- the service is only ever asked about the claimed "
+           "name with this connection's secret and key.",
+    "C13": " Further stages: Admission histories against the real Listener (keyed by effective address); the configured seconds and limit through passage::start (C13app: first `limit` admitted, "
+           "never more than 2*limit per configured duration, re-admitted after two idle durations).",
+    "C14": " Also: a cookie that expires while the client idles inside the connection (age at presentation), a five-byte prefix with the sign bit set, and 'closed for good' (writes after the "
+           "server's end of stream must fail: not a half-close with the handler still reading).",
+    "C15": " Also: n connections decided at the same moment (a tracing layer stalls inside RateLimiter::enqueue); the PROXY version switches and the limiter as passage::start wires them, incl. "
+           "PROXY protocol on with neither version allowed.",
+    "C16": " Also: bursts of connections reset before the accept loop takes them, 40 clients that request a 2 MB status and never read it, half-closing clients, a flood from one announced "
+           "address, and a second well-behaved client after a quiet period longer than the deadline.",
+    "C17": " Also: staggered in-flight starts, a PROXY header that arrives after the stop, a configured deadline (14 s) longer than the built-in default with a connection that needs 11.5 s after "
+           "the stop, and SIGINT to passage::start with an exchange in flight.",
+}
+
 NOT_YET = {
     "C05": "check not built yet (Cipher.tla planned)", "C07": "check not built yet (ConnTimed.tla planned)",
     "C08": "check not built yet (Frames.tla planned)", "C09": "check not built yet (Wire.tla planned)",
@@ -202,7 +237,7 @@ def main():
             "evidence_file": "evidence/%s.json" % pid,
             "replay_cmd_template": "bin/check replay {path}",
             "engine": c["engine"],
-            "level_claimed": {"category": "model_checking", "text": c["text"], "design_ref": c["design"]},
+            "level_claimed": {"category": "model_checking", "text": c["text"] + EXTRA.get(pid, ""), "design_ref": c["design"]},
             "level_note": c["note"],
             "technique": c["technique"],
         })
